@@ -143,29 +143,33 @@ func vK17a() {
 func vK08b() {
 	n := vParam("ENTRIES", 2)
 	b := hBundle(n)
+	for i := range b.entryPoints {
+		// entry points may share a source file (ENTRIES > number of inputs); the
+		// k-th entry point is identified by its output path
+		b.entryPoints[i].OutputPath = string(rune('0' + i))
+	}
 	var order []int // order in which the mangle-cache callbacks ran
 	link := func(options *config.Options, timer *helpers.Timer, log logger.Log, fs fs.FS, res *resolver.Resolver,
 		inputFiles []graph.InputFile, entryPoints []graph.EntryPoint, uniqueKeyPrefix string,
 		reachableFiles []uint32, dataForSourceMaps func() []DataForSourceMap) []graph.OutputFile {
-		me := int(entryPoints[0].SourceIndex)
+		me := int(entryPoints[0].OutputPath[0] - '0')
 		options.ExclusiveMangleCacheUpdate(func(mangleCache map[string]interface{}, cssUsedLocalNames map[string]bool) {
 			order = append(order, me)
 			mangleCache["k"] = me
 		})
-		return []graph.OutputFile{{AbsPath: hOutUniverse[1+me], Contents: []byte{byte(me)}}}
+		return []graph.OutputFile{{AbsPath: "/out/e" + entryPoints[0].OutputPath + ".js", Contents: []byte{byte(me)}}}
 	}
 	log := logger.NewDeferLog(logger.DeferLogAll, nil)
 	cache := map[string]interface{}{}
 	outs, _ := b.Compile(log, nil, cache, link)
 	vAssert(len(outs) == n, "one output per entry point")
 	for i := range outs {
-		want := 1 + i%len(hInputs)
-		vAssert(len(outs[i].Contents) == 1 && int(outs[i].Contents[0]) == want, "outputs are joined in entry-point order for every schedule")
+		vAssert(len(outs[i].Contents) == 1 && int(outs[i].Contents[0]) == i, "outputs are joined in entry-point order for every schedule")
 	}
 	vAssert(len(order) == n, "every linker ran its mangle-cache update")
 	for i := range order {
-		vAssert(order[i] == 1+i%len(hInputs), "mangle-cache updates run in entry-point order for every schedule")
+		vAssert(order[i] == i, "mangle-cache updates run in entry-point order for every schedule")
 	}
-	vAssert(cache["k"] == 1+(n-1)%len(hInputs), "the last entry point's update wins")
+	vAssert(cache["k"] == n-1, "the last entry point's update wins")
 	vReach("end")
 }
